@@ -15,6 +15,14 @@ claimed={
   text='Reference-model runtime monitor over generated type graphs (<=6 user types; @T, @A|@B, {type:"@T"}, or-lists of names/built-ins/inline rule-sets, nullable references, allOf chains and diamonds, all additionalProperties modes, key shortcuts, regex and enum types, legal recursion): union/inheritance semantics are computed on the abstract model and compared with Validate for conforming, near-miss and unrelated documents; plus a real-vs-real differential (a position referencing @T accepts what stand-alone T accepts). Held on the executions observed.',
   note='Cells the statements do not decide are Unspecified and not compared (listed in the evidence assumptions). Graphs the generator believes legal but Check rejects are skipped and counted.',
   technique='reference-model monitor over generated type graphs + reference-vs-standalone differential', ref='7 (C03)'),
+ 'C08': dict(category='exploration',
+  text='Exhaustive-by-construction runtime monitor of Check: 10 node kinds x 3 positions x every subset (size <=3 quick, <=4 thorough) of the rule vocabulary plus an unknown name x parameter variants x ALL permutations of the written order (1.3e6 Check calls quick); order-independence is judged real-vs-real, the verdict against an applicability-matrix oracle written from the statement; plus an accept-biased family over applicable rules and every rule written twice.',
+  note='Trusts the matrix oracle (internal/model/checkoracle.go); enum on containers and enum+const are Unspecified; error codes among rejecting permutations are recorded, not judged.',
+  technique='matrix reference oracle + permutation (metamorphic) monitor over enumerated rule sets', ref='7 (C08)'),
+ 'C10': dict(category='exploration',
+  text='Two-level runtime monitor: (unit, via overlay hook) every RFC 8259 numeral of <=7 characters over {-,0,1,5,9,.,e,E,+} has its normalised expansion, fractional length and integer/float class compared with an independent big.Rat model, all ordered pairs of short numerals and random long numerals (<=60 digits, |exp|<=400, x vs x+-ulp vs re-spelling) have Cmp compared with the sign of the rational difference; (API, no hook) min/max/exclusive/precision schemas x document numerals of every form. Held on 7.8e6 (quick) / 6.8e7 (thorough) comparisons.',
+  note='Reference = internal/ref/num (unit-tested against big.Rat.SetString). One known finding: numerals -?0[eE]digits are not recognised (pinned by the repository own tests), listed in known_findings.txt as a narrowly stated input class.',
+  technique='differential monitor against exact rational arithmetic (hooked unit level + API level)', ref='7 (C10)'),
  'C19': dict(category='exploration',
   text='Bounded-exhaustive runtime monitoring: every operation sequence up to length 5 (quick) / 6 (thorough) over 14 mutating operations is executed on the three real generated maps and on a reference insertion-ordered map with the complete observable state compared after every step; random sequences to length 200; concurrent workloads under the Go race detector with quiescent-state invariants. Held on what was executed; not a proof beyond the bounds.',
   note='Reference model = slice of pairs written from the property statement; race freedom is judged only on the schedules the Go runtime produced; the internal Constraints map is reached through an overlay-injected hook (vh_cmap) and is reported inconclusive if the hook no longer compiles.',
